@@ -448,6 +448,26 @@ class Fn:
     def value_of_local(self, l, point):
         return self.read(('local', l), point)
 
+    _allowed = None
+
+    def read_via(self, lvexpr, point, via_block):
+        """Like read(), but only along CFG paths entry -> via_block -> point."""
+        anc = {via_block}
+        work = [via_block]
+        while work:
+            b = work.pop()
+            for p in self.pred[b]:
+                if p not in anc:
+                    anc.add(p)
+                    work.append(p)
+        desc = self.reachable(via_block)
+        saved_cache, saved_allowed = self._prov_cache, self._allowed
+        self._prov_cache, self._allowed = {}, (anc | desc)
+        try:
+            return self.read(lvexpr, point)
+        finally:
+            self._prov_cache, self._allowed = saved_cache, saved_allowed
+
     def read(self, lvexpr, point, _depth=0):
         """Provenance of the value stored at canonical lvalue `lvexpr` just before `point`."""
         key = (lvexpr, point)
@@ -506,6 +526,8 @@ class Fn:
             if bi == 0:
                 results.append(self._entry_value(lvexpr, root))
             for p in self.pred[bi]:
+                if self._allowed is not None and p not in self._allowed:
+                    continue
                 work.append((p, 'end'))
         return self._mkphi(results)
 
@@ -726,11 +748,23 @@ class Fn:
         pt = (bi, len(self.blocks[bi]['stmts']))
         return self._through(e, pt, depth)
 
+    keep_objects = None   # optional regex: locals whose type matches stay as identities (&_n)
+
+    def objview(self, e, bi):
+        """Like through_refs, but references to packet objects (Mutable*Packet locals) stay symbolic (&_n)."""
+        self.keep_objects = re.compile(r'^pnet::packet::[\w:]*Mutable\w+Packet<')
+        try:
+            return self.through_refs(e, bi)
+        finally:
+            self.keep_objects = None
+
     def _through(self, e, pt, depth):
-        if not isinstance(e, tuple) or depth > 6:
+        if not isinstance(e, tuple) or depth > 10:
             return e
         k = e[0]
         if k == 'ref' and isinstance(e[1], tuple) and self.root_of(e[1])[0] == 'local':
+            if self.keep_objects is not None and e[1][0] == 'local' and self.keep_objects.search(self.locals[e[1][1]]['ty']):
+                return e
             v = self.read(e[1], pt)
             return ('ref', self._through(v, pt, depth + 1))
         if k == 'call':
